@@ -4,7 +4,8 @@
 (* of a valid image replaced by boundary values, plus coordinated corruptions.  Base images carry    *)
 (* literal payloads so that a fault can address any byte.                                            *)
 (***************************************************************************************************)
-EXTENDS Clm, TLC
+EXTENDS Clm, TLC, Mutate
+CONSTANTS Seed, NRand
 VARIABLES done
 RECURSIVE FlatSegs(_)
 FlatSegs(segs) == IF segs = <<>> THEN <<>>
@@ -72,5 +73,8 @@ Next == /\ ~done /\ done' = TRUE
                   EmitWav(<<"wav-wrap", bi, i, v>>, SetBytes(img, ChunkOff(ch, i) + 4, v))
              \* coordinated: data chunk announces more than the file holds, RIFF size adjusted to still match the file length
              /\ EmitWav(<<"wav-data-long", bi>>, LET di == CHOOSE i \in 1..Len(ch) : ch[i][1] = TagData IN SetBytes(img, ChunkOff(ch, di) + 4, LE32(Len(ch[di][2]) + 100)))
+        /\ \A r \in 1..NRand : LET bi == 1 + (r % 2) IN
+             /\ EmitClm(<<"random", Seed, r>>, Mutated(ClmImage(ClmBases[bi]), Seed * 607 + r), Len(ClmBases[bi]))
+             /\ EmitWav(<<"wav-random", Seed, r>>, Mutated(WavImg(WavBases[bi]), Seed * 613 + r))
 Spec == Init /\ [][Next]_done
 ====
